@@ -75,13 +75,14 @@ type simMiner struct {
 	mc   *miner.Chain
 	dir  string
 	// loop control
-	cancel  context.CancelFunc
-	done    chan struct{}
-	gid     string // goroutine id of the DKGProcess loop
-	entries int    // number of times the loop entered its select
-	lmu     sync.Mutex
-	loopCh  chan chain.PhaseEvent // what the loop reads
-	realCh  chan chain.PhaseEvent // what sendPhase writes to
+	cancel   context.CancelFunc
+	done     chan struct{}
+	gid      string // goroutine id of the DKGProcess loop
+	entries  int    // number of times the loop entered its select
+	lmu      sync.Mutex
+	panicked string
+	loopCh   chan chain.PhaseEvent // what the loop reads
+	realCh   chan chain.PhaseEvent // what sendPhase writes to
 	// the block this miner has finalized last
 	lfb *block.Block
 }
@@ -188,6 +189,8 @@ func goid() string {
 	return ""
 }
 
+var stackBuf []byte // reused by idle (driver goroutine only)
+
 // idle tells whether the miner's DKGProcess loop is blocked in its own select statement with nothing queued.
 func (m *simMiner) idle() bool {
 	m.lmu.Lock()
@@ -196,27 +199,29 @@ func (m *simMiner) idle() bool {
 	if gid == "" || len(m.loopCh) > 0 {
 		return false
 	}
-	buf := make([]byte, 1<<20)
+	if stackBuf == nil {
+		stackBuf = make([]byte, 256<<10)
+	}
+	var buf []byte
 	for {
-		n := runtime.Stack(buf, true)
-		if n < len(buf) {
-			buf = buf[:n]
+		n := runtime.Stack(stackBuf, true)
+		if n < len(stackBuf) {
+			buf = stackBuf[:n]
 			break
 		}
-		buf = make([]byte, 2*len(buf))
+		stackBuf = make([]byte, 2*len(stackBuf))
 	}
-	head := "goroutine " + gid + " ["
-	for _, g := range strings.Split(string(buf), "\n\n") {
-		if !strings.HasPrefix(g, head) {
-			continue
-		}
-		lines := strings.SplitN(g, "\n", 3)
-		if len(lines) < 2 {
-			return false
-		}
-		return strings.HasPrefix(lines[0][len(head):], "select") && strings.HasPrefix(lines[1], "0chain.net/miner.(*Chain).DKGProcess(")
+	head := []byte("goroutine " + gid + " [")
+	i := bytes.Index(buf, head)
+	if i < 0 || (i > 0 && buf[i-1] != '\n') {
+		return false
 	}
-	return false
+	g := buf[i+len(head):]
+	if !bytes.HasPrefix(g, []byte("select")) {
+		return false
+	}
+	nl := bytes.IndexByte(g, '\n')
+	return nl >= 0 && bytes.HasPrefix(g[nl+1:], []byte("0chain.net/miner.(*Chain).DKGProcess("))
 }
 
 // waitIdle blocks until the loop has consumed and completely processed whatever was sent to it.
@@ -228,7 +233,7 @@ func (m *simMiner) waitIdle() {
 		}
 		select {
 		case <-m.done:
-			rec.Fatal("vcclient: DKGProcess loop of %s returned", m.key.Name)
+			return // crashed (LoopEnd reports it)
 		default:
 		}
 		time.Sleep(200 * time.Microsecond)
@@ -355,6 +360,10 @@ func (s *sim) startMiners() {
 		s.wipeStores()
 		m.c.AddGenesisBlock(w.Genesis)
 		m.lfb = w.Genesis
+		// a DKG for the genesis magic block (a running miner has one; its keys do not matter here)
+		g0 := bls.MakeDKG(w.MagicBlock.T, w.MagicBlock.N, k.ID)
+		g0.MagicBlockNumber, g0.StartingRound = w.MagicBlock.MagicBlockNumber, w.MagicBlock.StartingRound
+		must(m.mc.SetDKG(g0, g0.StartingRound))
 		for _, n := range m.c.GetCurrentMagicBlock().Sharders.CopyNodes() {
 			n.SetStatus(node.NodeStatusActive) // the sharders are reachable
 		}
@@ -367,6 +376,14 @@ func (s *sim) startMiners() {
 		m.realCh = m.c.VerifVCSwapPhaseEvents(m.loopCh)
 		go func(m *simMiner) {
 			defer close(m.done)
+			defer func() {
+				// a panic in a phase function ends the node's DKG process (and, unrecovered, the node)
+				if r := recover(); r != nil {
+					m.lmu.Lock()
+					m.panicked = fmt.Sprint(r)
+					m.lmu.Unlock()
+				}
+			}()
 			m.mc.DKGProcess(loopCtx{Context: ctx, m: m})
 		}(m)
 	}
@@ -464,9 +481,6 @@ func (t apiRT) RoundTrip(req *http.Request) (*http.Response, error) {
 	s := t.s
 	path := req.URL.Path
 	port := portOf(req)
-	if s.debug {
-		fmt.Fprintf(os.Stderr, "    api %s %s\n", req.Method, req.URL.String())
-	}
 	switch {
 	case strings.HasSuffix(path, "/v1/transaction/put"):
 		body, _ := io.ReadAll(req.Body)
@@ -522,6 +536,9 @@ func (t apiRT) RoundTrip(req *http.Request) (*http.Response, error) {
 		s.mu.Unlock()
 		out := rr.Result()
 		out.Request = req
+		if s.debug {
+			fmt.Fprintf(os.Stderr, "    rest %s by sharder s%d (block %d) -> %d %s\n", path[strings.LastIndex(path, "/"):], sh.idx+1, sh.lfb.Round, out.StatusCode, clip(rr.Body.String(), 160))
+		}
 		return out, nil
 	}
 	return resp(req, 404, []byte(`{}`)), nil
@@ -646,10 +663,32 @@ func (s *sim) poll(m *simMiner) (delivered bool) {
 	select {
 	case ev := <-m.realCh:
 		delivered = true
+		m.lmu.Lock()
+		e0 := m.entries
+		m.lmu.Unlock()
 		m.loopCh <- ev
+		// the loop comes back to its select when it is through with the event (cheap test first)
+		for deadline := time.Now().Add(20 * time.Second); time.Now().Before(deadline); {
+			m.lmu.Lock()
+			e := m.entries
+			m.lmu.Unlock()
+			if e > e0 {
+				break
+			}
+			select {
+			case <-m.done:
+				return
+			default:
+			}
+			time.Sleep(50 * time.Microsecond)
+		}
 	default:
 	}
-	m.waitIdle()
+	select {
+	case <-m.done: // the loop crashed or returned
+	default:
+		m.waitIdle()
+	}
 	return
 }
 
